@@ -520,12 +520,10 @@ def _render_float(value: float) -> str:
 def create_helicity_symbol(
     topology: Topology, state_id: int, root: str = "lambda"
 ) -> sp.Symbol:
-    if state_id == -1:  # initial state
-        name = "m_A"
-    else:
-        suffix = get_helicity_suffix(topology, state_id)
-        name = f"{root}{suffix}"
-    return sp.Symbol(name, rational=True)
+    if state_id in topology.incoming_edge_ids:  # initial state
+        return create_spin_projection_symbol(state_id)
+    suffix = get_helicity_suffix(topology, state_id)
+    return sp.Symbol(f"{root}{suffix}", rational=True)
 
 
 def create_spin_projection_symbol(state_id: int) -> sp.Symbol:
